@@ -293,6 +293,8 @@ void OPNMIDIplay::realTime_ResetState()
         noteUpdateAll(uint16_t(ch), Upd_All);
         noteUpdateAll(uint16_t(ch), Upd_Off);
     }
+    // The pedals were just reset: notes they were holding must not keep sounding
+    killSustainingNotes(-1, -1, OpnChannel::LocationData::Sustain_ANY);
     synth.m_masterVolume = MasterVolumeDefault;
 }
 
